@@ -12,6 +12,10 @@ the item (runs on a fresh run state and does not see the other items) is propert
 whole-engine runs of `vharness foreach`, not proved.
 -/
 import Arca.Proofs.ForeachAssemble
+import Arca.Proofs.ForeachTimer
+import Arca.Model.SkelUtil
+import Arca.Gen.Consts
+import Arca.Gen.Skel
 
 namespace Arca.Props.C13
 open Arca.Model.ForeachPool
@@ -250,6 +254,67 @@ theorem closed_pool_accounts_for_every_item (P : Pool α β) (sched : List Tr) (
           exact ⟨a, rfl, hph, ho⟩
         · simp [hx, hph] at ho
 
+/-! ### time: the pool has no timer; what a timer may and must not do; closing a loop with a queue -/
+
+/-- `foreach_pool_has_no_timer` (regenerated fact).  The pool model above has no notion of time: an item waits for a slot
+    or for the close, nothing else.  That is a fact about `internal/step/foreach/provider.go`, extracted on every run: no
+    time constant and no timer call (`time.NewTimer/After/AfterFunc/Sleep/NewTicker/Tick/Since/Until`, `Reset`,
+    `context.WithTimeout/WithDeadline`) anywhere in the provider.  A new timer is a changed fact; what it may do is
+    `parallelism_bound_with_timer`, and the long-queue cases of the foreach stream keep items queued for longer than every
+    duration found here. -/
+theorem foreach_pool_has_no_timer : Arca.Gen.foreachTimers = [] := by decide
+
+/-- `queued_items_wait_for_slot_or_close_only` (regenerated fact).  `executeSubWorkflows` contains ONE select; its arms are
+    exactly the semaphore send (`Tr.acquire`, first arm: no `default` arm precedes it) and the receive from
+    `r.ctx.Done()` (`Tr.abort`): a queued item can leave the queue in no other way (no timer arm), and it does watch the
+    close. -/
+theorem queued_items_wait_for_slot_or_close_only :
+    Arca.Gen.Skel.step_foreach_provider_runningStep_executeSubWorkflows.filter
+        (fun t => Arca.Model.Skel.startsWith "comm(" t || Arca.Model.Skel.startsWith "select" t) =
+      ["select{", "comm(sem <- struct{}{}):", "comm(<-r.ctx.Done()):"] ∧
+    Arca.Model.Skel.adjacent (Arca.Model.Skel.isTok "select{") (Arca.Model.Skel.isTok "comm(sem <- struct{}{}):")
+      Arca.Gen.Skel.step_foreach_provider_runningStep_executeSubWorkflows = true := by decide
+
+/-- `timer_schedule_is_pool_schedule`.  If the timer arm of a queued item leaves the item queued (`stepT`), every
+    schedule with timer events is a schedule of the pool without them, ending in the same state: all theorems above carry
+    over, however often and whenever timers fire. -/
+theorem timer_schedule_is_pool_schedule (P : Pool α β) (l : List TrT) (s : PoolState α β)
+    (h : runSchedT P (init P) l = some s) : runSched P (init P) (untick l) = some s :=
+  runSchedT_untick h
+
+/-- `parallelism_bound_with_timer`.  Never more than `parallelism` sub-workflows at a time, for every interleaving of item
+    goroutines, closes and timer events. -/
+theorem parallelism_bound_with_timer (P : Pool α β) (l : List TrT) (s : PoolState α β)
+    (h : runSchedT P (init P) l = some s) : running s = s.sem ∧ s.sem ≤ P.p ∧ running s ≤ P.p :=
+  parallelism_bound P (untick l) s (runSchedT_untick h)
+
+/-- `timer_start_without_slot_breaks_bound` (counterexample, kernel-checked).  A timer arm after which the item EXECUTES
+    without having taken a slot breaks the bound as soon as one item has been queued long enough for its timer to fire:
+    parallelism 1, item 0 holds the slot, the timer of the queued item 1 fires, two items run. -/
+theorem timer_start_without_slot_breaks_bound :
+    ∃ (P : Pool Nat Nat) (s₁ s₂ : PoolState Nat Nat), runSched P (init P) [.acquire 0] = some s₁ ∧
+      tickWithoutSlot P s₁ 1 = some s₂ ∧ P.p < running s₂ :=
+  ⟨{ xs := [10, 20, 30], p := 1, exec := fun _ a => .ok (a + 1) },
+   _, _, rfl, rfl, by decide⟩
+
+/-- `close_parked_no_new_start`.  Once the close has reached every queued item (nothing is pending any more: every item
+    goroutine parked in its select was woken on the `ctx.Done()` arm, which is what the Go runtime does when the channel
+    is closed while the semaphore is full), NO item run begins any more, whatever the schedule. -/
+theorem close_parked_no_new_start (P : Pool α β) (sched rest : List Tr) (s₁ s₂ : PoolState α β)
+    (_h₁ : runSched P (init P) sched = some s₁) (hq : pendingCount s₁ = 0)
+    (h₂ : runSched P s₁ rest = some s₂) : ∀ i, Tr.acquire i ∉ rest :=
+  no_acquire_runSched hq h₂
+
+/-- `close_parked_work_bounded_by_parallelism`.  ... and what is left to do after the close is bounded by the items that
+    held a slot, i.e. by `parallelism` — it does not grow with the number of queued items (the return bound of C06). -/
+theorem close_parked_work_bounded_by_parallelism (P : Pool α β) (sched rest : List Tr) (s₁ s₂ : PoolState α β)
+    (h₁ : runSched P (init P) sched = some s₁) (hc : s₁.cancelled = true) (hq : pendingCount s₁ = 0)
+    (h₂ : runSched P s₁ rest = some s₂) : rest.length ≤ running s₁ ∧ running s₁ ≤ P.p := by
+  have hm := measure_runSched h₂
+  have hb := (parallelism_bound P sched s₁ h₁).2.2
+  simp only [Arca.Model.ForeachPool.measure, hq, hc] at hm
+  exact ⟨by simp at hm; omega, hb⟩
+
 /-! ### non-vacuity and the concrete schedules -/
 
 /-- three items, parallelism 2, the middle one fails -/
@@ -304,5 +369,17 @@ example : (runSched demo (init demo) [.acquire 0, .acquire 1, .finish 1, .finish
 example : (runSched demoOk (init demoOk) [.cancel, .acquire 2, .acquire 0, .abort 1, .finish 0, .finish 2]).map
     (fun s => (allDone s, running s, assemble s)) =
     some (true, 0, .failure [(0, 11), (2, 31)] [(1, ItemOutcome.abortMsg)]) := by decide
+
+/-! timers and the close of a loop with a queue -/
+
+/-- non-vacuity: such a closed state exists and still has work left (item 0 runs), while items 1, 2 were queued -/
+example : (runSched demoOk (init demoOk) [.acquire 0, .acquire 1, .cancel, .abort 2]).map
+    (fun s => (s.cancelled, pendingCount s, running s)) = some (true, 0, 2) := by decide
+/-- the timer of a queued item may fire any number of times -/
+example : (runSchedT ({ demoOk with p := 1 } : Pool Nat Nat) (init { demoOk with p := 1 })
+    [.pool (.acquire 0), .tick 1, .tick 2, .tick 1, .pool (.finish 0), .pool (.acquire 1)]).map
+    (fun s => (running s, s.sem)) = some (1, 1) := by decide
+/-- ... but not for an item that is not queued -/
+example : runSchedT demoOk (init demoOk) [.pool (.acquire 0), .tick 0] = none := by decide
 
 end Arca.Props.C13
